@@ -12,8 +12,9 @@ import (
 	"verifharness/internal/core"
 )
 
-// child entry point:  vh c17-gen <module dir> <pkg pattern>
-// Runs the real deepcopy generator through gengo.NewContext(...).Execute exactly once.
+// child entry point:  vh c17-gen <module dir> <pkg pattern> [<output file base name>]
+// Runs the real deepcopy generator through gengo.NewContext(...).Execute exactly once (GeneratorArgs.OutputFileBaseName =
+// the third argument, "zz_generated" when absent).
 // exit 0 = generated, 3 = Execute/NewContext returned an error, 2 = panic (Go runtime prints the trace).
 func init() {
 	core.Children["c17-gen"] = func(args []string) int {
@@ -26,9 +27,13 @@ func init() {
 			fmt.Fprintln(os.Stderr, err)
 			return 4
 		}
+		base := "zz_generated"
+		if len(args) > 2 && args[2] != "" {
+			base = args[2]
+		}
 		c, err := gengo.NewContext(&gengo.GeneratorArgs{
 			Entrypoint:         []string{args[1]},
-			OutputFileBaseName: "zz_generated",
+			OutputFileBaseName: base,
 			Force:              true,
 		})
 		if err != nil {
